@@ -44,6 +44,13 @@ def mutate(rng, p):
     return bytes(b)
 
 
+def _fnv1_32(b):
+    h = 0x811c9dc5
+    for x in b:
+        h = ((h * 0x01000193) & 0xffffffff) ^ x
+    return h
+
+
 def adversarial_tpl(g, rng, tid):
     """templates the decoders must survive: zero fields, zero-length fields, 65535-length fixed fields,
     scope count > field count, elements missing from the model"""
@@ -231,6 +238,21 @@ class FlowRobust:
                     sets = [g.enc_set(i, b"") for i in ids]
                     toks += [hx(sender), hx(g.enc_msg(sets))]
                 out.append(cmd + " " + " ".join(toks))
+        # ONE shard of the template cache holding more than a thousand templates, all learnt within one second (a burst after a restart):
+        # an exporter whose 1100 template ids all hash into the shard of another exporter's template; then that one announces and sends
+        for p in ("ipfix", "nf9"):
+            g, cmd = gens[p], "ipfixh" if p == "ipfix" else "nf9h"
+            x = bytes([10, 9, rng.randrange(1, 255), rng.randrange(1, 255)])
+            shard = _fnv1_32(x + struct.pack(">H", 256)) % 32
+            crowd = bytes([172, 16, rng.randrange(1, 255), rng.randrange(1, 255)])
+            ids = [i for i in range(300, 65000) if _fnv1_32(crowd + struct.pack(">H", i)) % 32 == shard][:1100]
+            toks = []
+            for k in range(0, len(ids), 160):
+                toks += [hx(crowd), hx(g.enc_msg([g.enc_set(g.tpl_set_id(False), b"".join(g.enc_tpl(Tpl(i, [], [(1, 0, 8)]), False) for i in ids[k:k + 160]))]))]
+            tx = Tpl(256, [], [(8, 0, 4), (12, 0, 4)])
+            toks += [hx(x), hx(g.enc_msg([g.enc_set(g.tpl_set_id(False), g.enc_tpl(tx, False)), g.enc_set(256, g.rand_record(tx)[0])]))]
+            toks += [hx(crowd), hx(g.enc_msg([g.enc_set(ids[5], bytes(8))]))]
+            out.append(cmd + " " + " ".join(toks))
         # template records with field count 0 (what RFC 7011 8.1 calls a withdrawal; "all templates" is id 2 in set 2, id 3 in set 3;
         # NetFlow v9 has no such thing, the records are the same octets), alone, followed by a real template record in the same set,
         # sent by exporters known by a 4-octet and by a 16-octet address while templates of BOTH kinds of exporter are cached
